@@ -116,6 +116,8 @@ func sweep(x *mon.Ctx) {
 	}
 	es := catalogue(w)
 	r := &runner{x: x, gs: newGuards(), st: newSites()}
+	setEditBreadth(x.Thorough())
+	allSubstitutions = x.Thorough()
 	x.Note("c13.sweep: %d entry points, %d artefacts, %d bytes of seeds, %d DER edits per node", len(es), len(w.list), totalLen(w), editsPerNode)
 
 	spliceCases := x.Scale(1, 12)
